@@ -15,6 +15,12 @@ Viol ==
           IN UNION {{[idx |-> k, id |-> Pairs[k].id, prop |-> p, sig |-> s] : s \in a[p]} : p \in PropIds}
         : k \in Idx }
 
+\* the distinct outcomes observed for one input over its repetitions (groups.ndjson: [id, in, outs, idx])
+Groups == ndJsonDeserialize("groups.ndjson")
+OrderViol ==
+  {[idx |-> Groups[g].idx, id |-> Groups[g].id, prop |-> "C03", sig |-> [f |-> "whether-the-cycle-acts-depends-on-the-order"]] :
+     g \in {g \in DOMAIN Groups : OrderDependent(Groups[g].in, {Groups[g].outs[k] : k \in DOMAIN Groups[g].outs})}}
+
 \* non-vacuity: on how many distinct inputs is the antecedent of each property exercised
 NT(p, i, o) ==
   CASE p = "C01" -> \E k \in Sh(i) : InSync(i, k) /\ Reported(i, k) \cap ActiveSet(i) # {}
@@ -26,6 +32,6 @@ NT(p, i, o) ==
     [] p = "C20" -> \E k \in Sh(i) : New(i, o, k) \cap UnscrapedHealthy(i) # {}
 NonTrivial == [p \in PropIds |-> Cardinality({Pairs[k].id : k \in {k \in Idx : NT(p, Pairs[k].in, Pairs[k].out)}})]
 
-ASSUME ndJsonSerialize("viol.ndjson", SetToSeq(Viol))
+ASSUME ndJsonSerialize("viol.ndjson", SetToSeq(Viol \cup OrderViol))
 ASSUME ndJsonSerialize("evalstats.ndjson", <<[pairs |-> Len(Pairs), nontrivial |-> NonTrivial]>>)
 =============================================================================
